@@ -117,6 +117,9 @@ type IPTables struct {
 	Sets     *IPSet // for --match-set existence checks (may be nil)
 	Rejects  []Rejected
 	Restores int
+	// FailAt > 0 makes the FailAt-th modifying call from now on fail without any effect (an exec error of the iptables binary)
+	FailAt int
+	Failed []string
 	// Benign marks rejections that galaxy provokes on purpose and handles (e.g. flushing a chain that does not exist)
 }
 
@@ -129,6 +132,21 @@ func NewIPTables(sets *IPSet) *IPTables {
 		sets.ipt = f
 	}
 	return f
+}
+
+// fault counts down FailAt on every modifying call; the call that reaches zero fails.
+func (f *IPTables) fault(op string) error {
+	f.mu.Lock()
+	defer f.mu.Unlock()
+	if f.FailAt <= 0 {
+		return nil
+	}
+	f.FailAt--
+	if f.FailAt == 0 {
+		f.Failed = append(f.Failed, op)
+		return fmt.Errorf("injected: %s: exit status 4: iptables: resource temporarily unavailable", op)
+	}
+	return nil
 }
 
 func (f *IPTables) table(name string) *Table {
@@ -234,6 +252,9 @@ func (f *IPTables) GetVersion() (string, error) { return "1.8.9", nil }
 func (f *IPTables) IsIpv6() bool                { return false }
 
 func (f *IPTables) EnsureChain(table utiliptables.Table, chain utiliptables.Chain) (bool, error) {
+	if err := f.fault("EnsureChain"); err != nil {
+		return false, err
+	}
 	f.mu.Lock()
 	defer f.mu.Unlock()
 	t := f.table(string(table))
@@ -246,6 +267,9 @@ func (f *IPTables) EnsureChain(table utiliptables.Table, chain utiliptables.Chai
 }
 
 func (f *IPTables) FlushChain(table utiliptables.Table, chain utiliptables.Chain) error {
+	if err := f.fault("FlushChain"); err != nil {
+		return err
+	}
 	f.mu.Lock()
 	defer f.mu.Unlock()
 	t := f.table(string(table))
@@ -258,6 +282,9 @@ func (f *IPTables) FlushChain(table utiliptables.Table, chain utiliptables.Chain
 }
 
 func (f *IPTables) DeleteChain(table utiliptables.Table, chain utiliptables.Chain) error {
+	if err := f.fault("DeleteChain"); err != nil {
+		return err
+	}
 	f.mu.Lock()
 	defer f.mu.Unlock()
 	t := f.table(string(table))
@@ -289,6 +316,9 @@ func (t *Table) removeOrder(chain string) {
 }
 
 func (f *IPTables) EnsureRule(position utiliptables.RulePosition, table utiliptables.Table, chain utiliptables.Chain, args ...string) (bool, error) {
+	if err := f.fault("EnsureRule"); err != nil {
+		return false, err
+	}
 	f.mu.Lock()
 	defer f.mu.Unlock()
 	t := f.table(string(table))
@@ -315,6 +345,9 @@ func (f *IPTables) EnsureRule(position utiliptables.RulePosition, table utilipta
 }
 
 func (f *IPTables) DeleteRule(table utiliptables.Table, chain utiliptables.Chain, args ...string) error {
+	if err := f.fault("DeleteRule"); err != nil {
+		return err
+	}
 	f.mu.Lock()
 	defer f.mu.Unlock()
 	t := f.table(string(table))
@@ -404,6 +437,9 @@ func (f *IPTables) Restore(table utiliptables.Table, data []byte, flush utilipta
 
 // RestoreAll applies an iptables-restore batch; each table section is atomic.
 func (f *IPTables) RestoreAll(data []byte, flush utiliptables.FlushFlag, counters utiliptables.RestoreCountersFlag) error {
+	if err := f.fault("RestoreAll"); err != nil {
+		return err
+	}
 	f.mu.Lock()
 	defer f.mu.Unlock()
 	f.Restores++
